@@ -2,6 +2,7 @@ package main
 
 import (
 	"fmt"
+	"go/types"
 	"regexp"
 	"sort"
 	"strings"
@@ -30,6 +31,7 @@ type cobraCmd struct {
 	parent   string
 	flags    map[string]string // flag name -> variable global name
 	kinds    map[string]string // flag name -> registration method (StringArrayVarP, StringSliceVarP, ...)
+	defaults map[string]string // flag name -> rendered default value
 	required map[string]bool
 }
 
@@ -127,6 +129,15 @@ func (c *Ctx) cobraCommands() map[string]*cobraCmd {
 						cc.kinds = map[string]string{}
 					}
 					cc.kinds[flagName] = n[strings.LastIndex(n, ".")+1:]
+					if cc.defaults == nil {
+						cc.defaults = map[string]string{}
+					}
+					switch len(a) {
+					case 6: // XxxVarP(p, name, shorthand, value, usage)
+						cc.defaults[flagName] = renderDefault(a[4])
+					case 5: // XxxVar(p, name, value, usage)
+						cc.defaults[flagName] = renderDefault(a[3])
+					}
 				}
 			case n == "(*github.com/spf13/cobra.Command).MarkFlagRequired" || n == "(*github.com/spf13/cobra.Command).MarkPersistentFlagRequired":
 				owner := globalOf(a[0])
@@ -362,6 +373,41 @@ func ruleC20_2(c *Ctx) {
 		for _, k := range c20Required[n] {
 			c.check(cc.required[k], R, "cmd."+n, "flag --"+k+" is required", cc.global.Pos(), "marked required", "flag --"+k+" is not marked required")
 		}
+	}
+	// one variable registered by several commands: pflag writes the default into the destination when the flag is
+	// registered, so the registration that runs last sets the value every one of those commands starts with; the
+	// defaults must be the same
+	type reg struct{ cmd, flag, def string }
+	regs := map[string][]reg{}
+	for _, n := range sortedKeys(cmds) {
+		cc := cmds[n]
+		for k, v := range cc.flags {
+			if v != "" {
+				regs[v] = append(regs[v], reg{n, k, cc.defaults[k]})
+			}
+		}
+	}
+	var vars []string
+	for v := range regs {
+		vars = append(vars, v)
+	}
+	sort.Strings(vars)
+	for _, v := range vars {
+		rs := regs[v]
+		if len(rs) < 2 {
+			continue
+		}
+		sort.Slice(rs, func(i, j int) bool { return rs[i].cmd+rs[i].flag < rs[j].cmd+rs[j].flag })
+		same := true
+		var parts []string
+		for _, r := range rs {
+			if r.def != rs[0].def {
+				same = false
+			}
+			parts = append(parts, r.cmd+" --"+r.flag+"="+r.def)
+		}
+		c.check(same, R, "cmd", "registrations of variable "+v+" agree on the default", 0, fmt.Sprintf("%d registrations, default %s", len(rs), rs[0].def),
+			"variable "+v+" is the destination of several flag registrations with different defaults ("+strings.Join(parts, "; ")+"): the registration that runs last decides what all of these commands start with, so a command passes the library a value its own --help does not show")
 	}
 	// g: the package variable bound to a flag (looked up through the registrations of the command and its parents)
 	g := func(flag string) string {
@@ -933,4 +979,55 @@ func (c *Ctx) fv(flag string, cmdNames ...string) string {
 		}
 	}
 	return "<flag --" + flag + " is not registered>"
+}
+
+func sortedKeys(m map[string]*cobraCmd) []string {
+	var out []string
+	for k := range m {
+		out = append(out, k)
+	}
+	sort.Strings(out)
+	return out
+}
+
+// renderDefault: a flag default as text: constants by value, slice literals element by element.
+func renderDefault(v ssa.Value) string {
+	switch x := v.(type) {
+	case *ssa.Const:
+		if x.Value == nil {
+			if _, isSlice := x.Type().Underlying().(*types.Slice); isSlice {
+				return "[]" // a nil list and an empty list are the same default
+			}
+			return "nil"
+		}
+		return x.Value.ExactString()
+	case *ssa.Slice:
+		if al, ok := x.X.(*ssa.Alloc); ok {
+			elems := map[int64]string{}
+			n := int64(0)
+			if at, ok := al.Type().Underlying().(*types.Pointer).Elem().Underlying().(*types.Array); ok {
+				n = at.Len()
+			}
+			for _, r := range *al.Referrers() {
+				if ia, ok := r.(*ssa.IndexAddr); ok {
+					idx, _ := constInt(ia.Index)
+					for _, rr := range *ia.Referrers() {
+						if st, ok := rr.(*ssa.Store); ok {
+							elems[idx] = renderDefault(st.Val)
+						}
+					}
+				}
+			}
+			var parts []string
+			for i := int64(0); i < n; i++ {
+				parts = append(parts, elems[i])
+			}
+			return "[" + strings.Join(parts, ", ") + "]"
+		}
+	case *ssa.MakeSlice:
+		if k, ok := constInt(x.Len); ok && k == 0 {
+			return "[]"
+		}
+	}
+	return short(org(v))
 }
